@@ -9,7 +9,7 @@
    The compu-method half is in Properties/C07.v; general parameter trees are
    correspondence + oracle only. *)
 From Coq Require Import ZArith List Bool.
-From OV Require Import Base.Bytes Base.Wire Generated Model.Str Model.Codec Proofs.BytesProofs Proofs.AtomicProofs Proofs.CodecProps Proofs.FlatProofs Proofs.TreeProofs Proofs.TreeWireProofs Proofs.FieldProofs.
+From OV Require Import Base.Bytes Base.Wire Generated Model.Str Model.Codec Proofs.BytesProofs Proofs.AtomicProofs Proofs.CodecProps Proofs.FlatProofs Proofs.TreeProofs Proofs.TreeWireProofs Proofs.FieldProofs Proofs.DynFieldProofs Proofs.EopFieldProofs.
 Import ListNotations.
 Open Scope Z_scope.
 
@@ -95,3 +95,22 @@ Theorem C03_message_of_members_reencode : forall k rs,
   encode_msg ps None (VDict (in_dict (rms rs))) = Ok (rbytes rs, false).
 Proof. intros k rs Hg ND ps Hf. destruct (rmessage_roundtrip k rs Hg ND Hf) as [E D]. split; assumption. Qed.
 Print Assumptions C03_message_of_members_reencode.
+
+(* ---------- messages which end in an END-OF-PDU-FIELD (Proofs/EopFieldProofs.v) ---------- *)
+(* a PDU which is the bytes of good members followed by the bytes of any number of items decodes, and encoding the
+   decoded values yields the identical byte string *)
+Theorem C03_end_of_pdu_field_reencode : forall k rs nm psi (items : list (list rmem)),
+  (forall x, In x rs -> rgood k x) ->
+  (forall it, In it items -> eitem_ok k psi it) ->
+  let ms := rms rs ++ [eop_member nm psi items] in
+  NoDup (map m_name ms) ->
+  let ps := map m_p ms in
+  (k + 5 <= fuel_of ps)%nat ->
+  let pdu := rbytes rs ++ concat (map rbytes items) in
+  decode_msg ps pdu = Ok (VDict (out_dict ms)) /\
+  encode_msg ps None (VDict (in_dict ms)) = Ok (pdu, false).
+Proof.
+  intros k rs nm psi items Hg Hit ms ND ps Hf pdu.
+  destruct (eop_message_roundtrip k rs nm psi items Hg Hit ND Hf) as [E D]. split; assumption.
+Qed.
+Print Assumptions C03_end_of_pdu_field_reencode.
